@@ -18,7 +18,13 @@ ops (one case = the requests sent over ONE connection, in order; or one `tokens`
                 are reproducible across runs although the token is fresh in every run.
         acrm / acrh / origin   value of Access-Control-Request-Method / -Headers / Origin (no spaces)
         body    request body (sent with Content-Length when not `-`, and always for POST)
+        optional trailing words: c=<k> connection number within the case (default 0; several
+                connections may be open at the same time) · v=1.0 HTTP/1.0 request line · nohost no
+                automatic Host header · h=<Name>:<value> a further header field, in op order (value
+                = template over the token, `+` = space) · te=chunked body sent chunked · pipe
+                written together with the next request before any response is read
     tokens <k>     start k further servers; compare all tokens of this run
+    anchor generate_token   shape of `generate_token` in the source tree the binary was built from
     enc <hex>      `nix_base32::to_nix_base32` on these bytes
 
 out:
@@ -91,6 +97,14 @@ structure ReqOp where
   acrh : Option String
   origin : Option String
   body : Option (List UInt8)
+  /-- connection number within the case (`c=<k>`, default 0) -/
+  conn : Nat := 0
+  /-- `v=1.0` -/
+  http11 : Bool := true
+  /-- `nohost`: no automatic `Host` header -/
+  noHost : Bool := false
+  /-- `h=<Name>:<value template>` in op order (`+` in the value = a space) -/
+  extra : Headers := []
 
 def field (w pre : String) : Option (Option String) :=
   if w.startsWith pre then
@@ -98,15 +112,31 @@ def field (w pre : String) : Option (Option String) :=
     some (if v = "-" then none else some v)
   else none
 
+/-- optional trailing words of a `req` line; transport-only words (`te=chunked`, `pipe`) do not
+change what the service function sees and are ignored here -/
+def applyExtra (tok : List Char) (r : ReqOp) (w : String) : ReqOp :=
+  if w = "v=1.0" then { r with http11 := false }
+  else if w = "nohost" then { r with noHost := true }
+  else if w.startsWith "c=" then { r with conn := nat! (w.drop 2).toString }
+  else if w.startsWith "h=" then
+    let nv := (w.drop 2).toString
+    match nv.splitOn ":" with
+    | name :: rest =>
+      let v := (expand tok (":".intercalate rest)).map fun c => if c = '+' then ' ' else c
+      { r with extra := r.extra ++ [(name.toList, v)] }
+    | [] => r
+  else r
+
 def parseReq (tok : List Char) (l : String) : Option ReqOp :=
   match words l with
-  | ["req", cfg, m, t, a, h, o, b] => do
+  | "req" :: cfg :: m :: t :: a :: h :: o :: b :: extras => do
     let acrm ← field a "acrm="
     let acrh ← field h "acrh="
     let origin ← field o "origin="
     let body ← field b "body="
-    pure { cfg := cfg, methodName := m, target := expand tok t, acrm := acrm, acrh := acrh,
-           origin := origin, body := body.map hexBytes }
+    let r : ReqOp := { cfg := cfg, methodName := m, target := expand tok t, acrm := acrm, acrh := acrh,
+                       origin := origin, body := body.map hexBytes }
+    pure (extras.foldl (applyExtra tok) r)
   | _ => none
 
 def cfgOf (tok : List Char) : String → Cfg
@@ -114,9 +144,16 @@ def cfgOf (tok : List Char) : String → Cfg
   | "d" => { pfx := '/' :: tok, profile := some ⟨false, false⟩ }
   | _ => { pfx := '/' :: tok, profile := some ⟨false, true⟩ }
 
-def reqOf (r : ReqOp) (path : List Char) : Req :=
-  { method := parseMethod r.methodName, path := path, hasACRM := r.acrm.isSome,
-    acrh := r.acrh.map String.toList,
+/-- the header block exactly in the order the harness writes it -/
+def headersOf (r : ReqOp) : Headers :=
+  (if r.noHost then [] else [("Host".toList, "127.0.0.1".toList)]) ++
+  (match r.origin with | some v => [("Origin".toList, v.toList)] | none => []) ++
+  (match r.acrm with | some v => [("Access-Control-Request-Method".toList, v.toList)] | none => []) ++
+  (match r.acrh with | some v => [("Access-Control-Request-Headers".toList, v.toList)] | none => []) ++
+  r.extra
+
+def wireOf (r : ReqOp) : WireReq :=
+  { methodTok := r.methodName.toList, target := r.target, http11 := r.http11, headers := headersOf r,
     bodyUtf8 := match r.body with
       | none => true
       | some bs => ByteArray.validateUTF8 ⟨bs.toArray⟩ }
@@ -135,41 +172,46 @@ def rejectedLine : String := "r status=400 acao=- acam=- acma=- acah=- acx=- bod
 
 def tokensLine : String := "tokens distinct=yes len=39 alphabet=ok varied=yes"
 
-/-- model output of one request line; the Bool says whether the connection survives -/
-def modelReq (l : String) : String × Bool :=
-  match parseReq modelToken l with
-  | none => ("bad-op", false)
-  | some r =>
-    match pathOfTarget r.target with
-    | none => (rejectedLine, false)  -- hyper answers 400 and closes the connection
-    | some path =>
-      match service (cfgOf modelToken r.cfg) (reqOf r path) with
-      | .panic => ("closed", false)
-      | .resp resp =>
-        -- HEAD: hyper drops the body
-        let line := showResp resp
-        let line := if r.methodName = "HEAD" then
-            (line.splitOn " body=").headD line ++ " body=empty" else line
-        (line, true)
+/-- the source anchor of the unprovable clause (see `judgeAnchor`) -/
+def anchorLine : String := "anchor generate_token fn=found buf=24 rng=rand::rng() fill=fill_bytes:whole enc=to_nix_base32:whole shadow=no"
 
-def modelLine (l : String) (alive : Bool) : String × Bool :=
+/-- model output of one request line and the connections that are over afterwards
+(`Server.serveStep`: one step of `Server.serveCase`) -/
+def modelReq (l : String) (dead : List Nat) : String × List Nat :=
+  match parseReq modelToken l with
+  | none => ("bad-op", dead)
+  | some r =>
+    let (o, dead') := serveStep dead (r.conn, cfgOf modelToken r.cfg, wireOf r)
+    match o with
+    | .closed => ("closed", dead')
+    | .panic => ("closed", dead')
+    | .rejected => (rejectedLine, dead')  -- hyper answers 400 and closes the connection
+    | .resp resp =>
+      -- HEAD: hyper drops the body
+      let line := showResp resp
+      let line := if r.methodName = "HEAD" then
+          (line.splitOn " body=").headD line ++ " body=empty" else line
+      (line, dead')
+
+def modelLine (l : String) (dead : List Nat) : String × List Nat :=
   match words l with
-  | "req" :: _ => if alive then modelReq l else ("closed", false)
-  | ["tokens", _] => (tokensLine, alive)
+  | "req" :: _ => modelReq l dead
+  | ["tokens", _] => (tokensLine, dead)
+  | ["anchor", "generate_token"] => (anchorLine, dead)
   | ["enc", h] =>
     match encode (hexBytes h) with
-    | some s => ("tok " ++ String.ofList s, alive)
-    | none => ("panic", alive)
-  | _ => ("bad-op", alive)
+    | some s => ("tok " ++ String.ofList s, dead)
+    | none => ("panic", dead)
+  | _ => ("bad-op", dead)
 
 def model (ls : List String) : List String :=
-  let rec go (ls : List String) (alive : Bool) (acc : List String) : List String :=
+  let rec go (ls : List String) (dead : List Nat) (acc : List String) : List String :=
     match ls with
     | [] => acc.reverse
     | l :: rest =>
-      let (o, alive') := modelLine l alive
-      go rest alive' (o :: acc)
-  go ls true []
+      let (o, dead') := modelLine l dead
+      go rest dead' (o :: acc)
+  go ls [] []
 
 /-! ## Judge: the statement of C18 evaluated on the implementation's own responses -/
 
@@ -182,33 +224,63 @@ def kv (ws : List String) (key : String) : String :=
 no `access-control-*` header of any kind, and a body that is the landing page or empty with an error
 status (404 from the service function; 400 when the HTTP layer rejects the request line itself).
 Under the prefix the statement demands nothing. A dropped connection counts as an answer only under
-the prefix (or after an earlier request of the same connection ended it). -/
-def judgeReq (l o : String) (alive : Bool) : (Bool × String) × Bool :=
+the prefix, or when the connection was over before: an earlier request of the same connection was
+dropped / rejected with 400, or the client itself ended it (`Connection: close`, HTTP/1.0 without
+keep-alive). `dead` = the connections of the case that are over. Headers of the request — whatever they
+are, with or without the token in them — play no role in the verdict. -/
+def judgeReq (l o : String) (dead : List Nat) : (Bool × String) × List Nat :=
   match parseReq modelToken l with
-  | none => ((false, "bad-op"), false)
+  | none => ((false, "bad-op"), dead)
   | some r =>
     let path? := pathOfTarget r.target
     let under := match path? with
       | some p => ('/' :: modelToken).isPrefixOf p
       | none => false
+    let kill := if dead.contains r.conn then dead else r.conn :: dead
     if o = "closed" then
-      if !alive then ((true, "ok"), false)
-      else if under then ((true, "ok"), false)
-      else ((false, s!"connection dropped without a response outside the secret prefix: {r.methodName} {String.ofList r.target}"), false)
+      if dead.contains r.conn then ((true, "ok"), dead)
+      else if under then ((true, "ok"), kill)
+      else ((false, s!"connection dropped without a response outside the secret prefix: {r.methodName} {String.ofList r.target}"), kill)
     else
       let ws := words o
-      if ws.head? ≠ some "r" then ((false, s!"bad output line {o}"), false) else
-      if under then ((true, "ok"), true) else
+      if ws.head? ≠ some "r" then ((false, s!"bad output line {o}"), kill) else
+      -- the client ended the connection with this request
+      -- (an HTTP/1.0 connection may be ended by the server after any response)
+      let after := if r.http11 && keepAlive (wireOf r) then dead else kill
+      if under then ((true, "ok"), after) else
       let what := s!"{r.methodName} {String.ofList r.target} (path does not begin with the token prefix)"
       let cors := [kv ws "acao", kv ws "acam", kv ws "acma", kv ws "acah", kv ws "acx"]
       if cors.any (· ≠ "-") then
-        ((false, s!"cross-origin permission header outside the secret prefix: {o} for {what}"), true)
+        ((false, s!"cross-origin permission header outside the secret prefix: {o} for {what}"), after)
       else
         let body := kv ws "body"
         let status := kv ws "status"
-        if body = "landing-p" ∨ body = "landing-n" then ((true, "ok"), true)
-        else if body = "empty" ∧ (status = "404" ∨ status = "400") then ((true, "ok"), status = "404")
-        else ((false, s!"neither landing page nor an empty 404 outside the secret prefix: {o} for {what}"), true)
+        if body = "landing-p" ∨ body = "landing-n" then ((true, "ok"), after)
+        else if body = "empty" ∧ (status = "404" ∨ status = "400") then
+          ((true, "ok"), if status = "404" then after else kill)
+        else ((false, s!"neither landing page nor an empty 404 outside the secret prefix: {o} for {what}"), after)
+
+/-- Source anchor of the clause that cannot be proved or observed ("the token is freshly random"):
+the harness reads `generate_token` (samply/src/server.rs) from the tree the binary under test was built
+from and reports its shape. Demanded: a 24-byte buffer, filled as a whole by `fill_bytes` /
+`try_fill_bytes(..).unwrap()` of an OS-seeded generator of the `rand` crate (`rand::rng()` = `ThreadRng`,
+ChaCha12 seeded and reseeded from the OS; or `OsRng` itself), the whole buffer handed to
+`nix_base32::to_nix_base32`, and no item of server.rs shadowing the name `rand`. Any other shape of the
+function (a seeded `SmallRng` / `StdRng::seed_from_u64`, the time, the pid) is reported. -/
+def judgeAnchor (o : String) : Bool × String :=
+  let ws := words o
+  if ws.take 2 ≠ ["anchor", "generate_token"] then (false, s!"bad output line {o}") else
+  if kv ws "fn" ≠ "found" then
+    (false, s!"generate_token no longer has the audited shape (24 bytes from an OS-seeded rand generator, base-32): {o}")
+  else if kv ws "buf" ≠ "24" then (false, s!"generate_token: the random buffer is not 24 bytes: {o}")
+  else if !(["rand::rng()", "rand::rngs::OsRng", "OsRng", "rand::rngs::OsRng.unwrap_err()", "OsRng.unwrap_err()"].contains (kv ws "rng")) then
+    (false, s!"generate_token: the bytes do not come from an OS-seeded generator: {o}")
+  else if !(["fill_bytes:whole", "try_fill_bytes:whole"].contains (kv ws "fill")) then
+    (false, s!"generate_token: the buffer is not filled as a whole: {o}")
+  else if kv ws "enc" ≠ "to_nix_base32:whole" then
+    (false, s!"generate_token: the token is not the base-32 encoding of the whole buffer: {o}")
+  else if kv ws "shadow" ≠ "no" then (false, s!"server.rs shadows the name `rand`: {o}")
+  else (true, "ok")
 
 def judgeEnc (h o : String) : Bool × String :=
   let bs := hexBytes h
@@ -225,21 +297,24 @@ def judgeEnc (h o : String) : Bool × String :=
 
 def judge (ops impl : List String) : Bool × String :=
   if ops.length ≠ impl.length then (false, "wrong number of output lines") else
-  let rec go (ops impl : List String) (alive : Bool) : Bool × String :=
+  let rec go (ops impl : List String) (dead : List Nat) : Bool × String :=
     match ops, impl with
     | l :: ls, o :: os =>
       match words l with
       | "req" :: _ =>
-        let (v, alive') := judgeReq l o alive
-        if v.1 then go ls os alive' else v
+        let (v, dead') := judgeReq l o dead
+        if v.1 then go ls os dead' else v
       | ["tokens", _] =>
-        if o = tokensLine then go ls os alive
+        if o = tokensLine then go ls os dead
         else (false, s!"tokens of several server starts are not distinct 39-character base-32 strings: {o}")
+      | ["anchor", "generate_token"] =>
+        let v := judgeAnchor o
+        if v.1 then go ls os dead else v
       | ["enc", h] =>
         let v := judgeEnc h o
-        if v.1 then go ls os alive else v
+        if v.1 then go ls os dead else v
       | _ => (false, "bad-op")
     | _, _ => (true, "ok")
-  go ops impl true
+  go ops impl []
 
 end C18
